@@ -7,6 +7,7 @@ mod c06;
 mod c10;
 mod c11;
 mod c13;
+mod c15;
 mod c16;
 mod c19;
 
@@ -20,6 +21,7 @@ fn gen_all(id: &str, seed: u64, n: usize, thorough: bool) -> Vec<String> {
         "C16" => c16::gen_cases(seed, n, thorough),
         "C13" => c13::gen_cases(seed, n, thorough),
         "C10" => c10::gen_cases(seed, n, thorough),
+        "C15" => c15::gen_cases(seed, n, thorough),
         _ => panic!("unknown property {}", id),
     }
 }
@@ -32,6 +34,7 @@ fn run_line(id: &str, line: &str) -> String {
         "C16" => c16::run_line(line),
         "C13" => c13::run_line(line),
         "C10" => c10::run_line(line),
+        "C15" => c15::run_line(line),
         _ => "UNKNOWN-PROPERTY".to_string(),
     });
     match r {
